@@ -610,6 +610,7 @@ func corpus(r *c.Rng, tier string) []*spec {
 	add(baseSpec("K2: DELETE with Content-Length: 0", "DELETE", "/k2d")).CLText = "0"
 	s = add(baseSpec("K2: Content-Length with a leading zero", "POST", "/k2z"))
 	s.Mode, s.Body, s.CLText = "sized", []byte("hello"), "05"
+	add(baseSpec("K2: PUT without a body and without Content-Length (the transport adds Content-Length: 0)", "PUT", "/k2u"))
 	s = add(baseSpec("POST with Content-Length: 0 (reproduced by the transport)", "POST", "/k2p"))
 	s.Mode, s.Body = "sized", []byte{}
 	// cookies
@@ -683,7 +684,7 @@ func main() {
 	for _, s := range corp {
 		cases = append(cases, worlds[0].run(s))
 	}
-	for _, s := range corp[:14] {
+	for _, s := range corp[:15] {
 		for _, w := range worlds[1:] {
 			cases = append(cases, w.run(s))
 		}
